@@ -21,6 +21,11 @@ SIM_PATH = '/simfs/ballots.blt'
 REF_BUDGET = {'quick': 400_000, 'thorough': 1_500_000}
 
 
+def ref_budget(idx, tier):
+    "step budget of the reference count of case idx (the long 55-70 candidate cases need more)"
+    return 4_000_000 if idx % 150 == 77 else REF_BUDGET[tier]
+
+
 # --------------------------------------------------------------------------
 # running
 # --------------------------------------------------------------------------
@@ -578,6 +583,9 @@ def vclass(viol):
 # schedule
 # --------------------------------------------------------------------------
 
+#: counts longer than this many line events get a short schedule and no driver/opcode/stdlib arms
+LONG_COUNT = 300_000
+
 #: instants later than this many events are reached by fork-at-instant instead of a re-run from the start
 FORK_FROM = {'line': 4000, 'opcode': 16000, 'xline': 5000}
 
@@ -586,9 +594,9 @@ INTERESTING = {'action', '_fill', 'elect', 'defeat', 'unpend', 'copy', 'postChec
 
 PARAMS = {
     'quick': dict(exh_cap=2000, sample=300, op_cases=0.15, op_stride=5, op_random=60, main_cases=0.25, main_k=36,
-                  sigint=0.01, window_orders=2, crosscheck=3, cli_k=5, cprofile=0.08, op_max=700, x_cases=0.2, x_max=100, max_k=1100),
+                  sigint=0.01, window_orders=2, crosscheck=3, cli_k=5, long_k=90, cprofile=0.08, op_max=700, x_cases=0.2, x_max=100, max_k=1100),
     'thorough': dict(exh_cap=8000, sample=1500, op_cases=0.5, op_stride=1, op_random=400, main_cases=0.4, main_k=120,
-                     sigint=0.02, window_orders=3, crosscheck=6, cli_k=16, cprofile=0.1, op_max=5000, x_cases=0.5, x_max=500, max_k=5000),
+                     sigint=0.02, window_orders=3, crosscheck=6, cli_k=16, long_k=600, cprofile=0.1, op_max=5000, x_cases=0.5, x_max=500, max_k=5000),
 }
 
 
@@ -597,6 +605,22 @@ def line_schedule(ref, P, rnd):
     T = ref['T']
     if T <= P['exh_cap']:
         return list(range(1, T + 1)), True
+    if T > LONG_COUNT:
+        # a very long count (55-70 candidates, more than fifty rounds): every forked instant costs tenths of a second
+        # here, so only a short schedule -- the start, a sample of action boundaries (late ones included), a
+        # stratified sample of the rest
+        m = P['long_k']
+        ks = set(range(1, 9))
+        bounds = [n for (n, _) in ref['nact_changes'] if 1 <= n <= T]
+        for n in rnd.sample(bounds, min(len(bounds), m // 3)):
+            ks.add(n)
+            ks.add(max(1, n - 1))
+        ks.update(bounds[-3:])
+        for j in range(m // 3):
+            lo = 1 + (T * j) // (m // 3)
+            hi = max(lo, (T * (j + 1)) // (m // 3))
+            ks.add(rnd.randint(lo, hi))
+        return sorted(ks), False
     ks = set()
     fill_end = ref['fill_done'] or 0
     ks.update(range(1, min(T, fill_end + 50) + 1))
@@ -702,6 +726,30 @@ def make_case(seed, idx, tier):
         e, o = gen.gen_coincidence(rnd, rule)
         text = gen.render_blt(e, rnd)
         return e, o, text, gen.encode_blt(text, rnd), rnd
+    if idx % 50 == 21:
+        # exact (rational) Meek/Warren on a tiny election, displayed more coarsely than omega: what the count prints
+        # about a surplus below omega then depends on display handling that the default (display 12, omega 10) hides
+        rule = ('meek', 'warren')[(idx // 50) % 2]
+        e = gen.gen_election(rnd, rule=rule, small=True, flags=dict(huge_mult=False, big_mult=False))
+        e['ballots'] = e['ballots'][:5]
+        elig = [c for c in range(1, e['n'] + 1) if c not in e['withdrawn']]
+        e['ballots'].append([1 if e['ids'] else len(elig), [[c] for c in elig]])
+        while e['ids'] and len(e['ballots']) < len(elig):
+            e['ballots'].append([1, [[elig[0]]]])
+        om = rnd.randint(3, 8)
+        o = {'rule': rule, 'arithmetic': 'rational', 'omega': om, 'display': rnd.randint(0, om)}
+        if rnd.random() < 0.3:
+            o['defeat_batch'] = rnd.choice(('none', 'safe'))
+        text = gen.render_blt(e, rnd)
+        return e, o, text, gen.encode_blt(text, rnd), rnd
+    if idx % 150 == 77:
+        # a long count: 55-70 candidates, few seats, one elimination per round -- more than fifty rounds
+        rule = ('wigm', 'scotland', 'meek', 'mpls', 'wigm-prf', 'cfer')[(idx // 150) % 6]
+        e, o, text = gen.gen_case(rnd, rule=rule, xlarge='xx', flags=dict(withdrawn=False, undeclared=False,
+                                                                           tie_heavy=False, huge_mult=False))
+        e['seats'] = min(e['seats'], 3)
+        text = gen.render_blt(e, rnd)
+        return e, o, text, gen.encode_blt(text, rnd), rnd
     r = rnd.random()
     xlarge = r > (0.985 if tier == 'quick' else 0.96)       # 20-30 candidates, 40-120 ballot lines
     large = (not xlarge) and r > (0.94 if tier == 'quick' else 0.85)
@@ -709,6 +757,11 @@ def make_case(seed, idx, tier):
     e, o, text = gen.gen_case(rnd, rule=rule, small=small, slow_ok=(rnd.random() < 0.3), large=large, xlarge=xlarge)
     raw = gen.encode_blt(text, rnd)
     return e, o, text, raw, rnd
+
+
+def case_clock(idx):
+    "simulated seconds per line event for case idx: none (real clocks untouched), 1 ms, 50 ms, 2 s (swarm style)"
+    return (None, 0.001, 0.05, 2.0, 0.001, None)[(idx // 3) % 6]
 
 
 def case_tty(idx):
@@ -721,7 +774,8 @@ def probe_case(R, seed, idx, tier):
     signal.signal(signal.SIGINT, signal.default_int_handler)
     _, o, text, _, _ = make_case(seed, idx, tier)
     _core.SINK_TTY = case_tty(idx)
-    ref = run_reference(R, text, o, 'line', REF_BUDGET[tier])
+    _core.CLOCK_RATE = case_clock(idx)
+    ref = run_reference(R, text, o, 'line', ref_budget(idx, tier))
     if not ref['ok']:
         return dict(idx=idx, ok=False, why=ref['why'], T=0, lines=frozenset())
     counts = {}
@@ -852,6 +906,7 @@ def run_case(R, seed, idx, tier):
     P = PARAMS[tier]
     e, o, text, raw, rnd = make_case(seed, idx, tier)
     _core.SINK_TTY = case_tty(idx)      # every other case counts with a console that says it is a terminal
+    _core.CLOCK_RATE = case_clock(idx)  # and most cases see a simulated clock driven by the step clock
     out = dict(idx=idx, rule=o['rule'], options=o, explored=False, why=None, execs=0, steps=0,
                viol=[], keys=set(), ref_sites=set(), inj_sites=set(), probes={}, faults={}, T=0, exhaustive=False,
                sample=None, crosschecked=0)
@@ -861,7 +916,7 @@ def run_case(R, seed, idx, tier):
     def probe(name, n=1):
         probes[name] = probes.get(name, 0) + n
 
-    ref = run_reference(R, text, o, 'line', REF_BUDGET[tier])
+    ref = run_reference(R, text, o, 'line', ref_budget(idx, tier))
     if not ref['ok']:
         out['why'] = ref['why']
         return out
@@ -1013,7 +1068,7 @@ def run_case(R, seed, idx, tier):
             for j in range(1, P['window_orders']):
                 ent.append(('raise', ORDERS[(k + salt + 5 * j) % len(ORDERS)]))
         schedule[k] = ent
-    if not sweep(ref, 'line', schedule, REF_BUDGET[tier]):
+    if not sweep(ref, 'line', schedule, ref_budget(idx, tier)):
         if out['why']:
             out['dropped_viol'] = len(out['viol'])
             out['viol'] = []
@@ -1026,7 +1081,7 @@ def run_case(R, seed, idx, tier):
 
     # ---- driver mode (plain re-run path)
     deferred = []
-    if R.Droop is not None and rnd.random() < P['main_cases']:
+    if R.Droop is not None and rnd.random() < P['main_cases'] and ref['T'] <= LONG_COUNT:
         T = ref['T']
         mk = set()
         for _ in range(P['main_k'] // 3):
@@ -1063,12 +1118,12 @@ def run_case(R, seed, idx, tier):
         probe('driver_unavailable')
 
     # ---- opcode level
-    if rnd.random() < P['op_cases']:
-        ref_op = run_reference(R, text, o, 'opcode', REF_BUDGET[tier] * 8)
+    if rnd.random() < P['op_cases'] and ref['T'] <= LONG_COUNT:
+        ref_op = run_reference(R, text, o, 'opcode', ref_budget(idx, tier) * 8)
         if ref_op['ok'] and ref_op['actions'] == ref['actions']:
             out['steps'] += ref_op['T']
             sched = {k: [('raise', ORDERS[(k + salt) % len(ORDERS)])] for k in opcode_schedule(ref_op, P, rnd)}
-            if not sweep(ref_op, 'opcode', sched, REF_BUDGET[tier] * 8):
+            if not sweep(ref_op, 'opcode', sched, ref_budget(idx, tier) * 8):
                 if out['why']:
                     out['dropped_viol'] = len(out['viol'])
                     out['viol'] = []
@@ -1079,8 +1134,8 @@ def run_case(R, seed, idx, tier):
             probe('opcode_ref_unusable')
 
     # ---- instants inside standard-library code called from the package (fractions, copy, sort keys ...)
-    if rnd.random() < P['x_cases']:
-        ref_x = run_reference(R, text, o, 'xline', REF_BUDGET[tier] * 3)
+    if rnd.random() < P['x_cases'] and ref['T'] <= LONG_COUNT:
+        ref_x = run_reference(R, text, o, 'xline', ref_budget(idx, tier) * 3)
         if ref_x['ok'] and ref_x['actions'] == ref['actions']:
             foreign = {}
             for i, sid in enumerate(ref_x['sites']):
@@ -1098,7 +1153,7 @@ def run_case(R, seed, idx, tier):
             if ksx:
                 out['steps'] += ref_x['T']
                 sched = {k: [('raise', ORDERS[(k + salt) % len(ORDERS)])] for k in ksx}
-                if not sweep(ref_x, 'xline', sched, REF_BUDGET[tier] * 3):
+                if not sweep(ref_x, 'xline', sched, ref_budget(idx, tier) * 3):
                     if out['why']:
                         out['dropped_viol'] = len(out['viol'])
                         out['viol'] = []
@@ -1109,7 +1164,7 @@ def run_case(R, seed, idx, tier):
             probe('xline_ref_unusable')
 
     # ---- reference stability (history dependence is C20's subject, not ours)
-    ref2 = run_reference(R, text, o, 'line', REF_BUDGET[tier])
+    ref2 = run_reference(R, text, o, 'line', ref_budget(idx, tier))
     if not ref2['ok'] or not _same_ref(ref, ref2):
         out['why'] = 'reference-unstable'
         out['dropped_viol'] = len(out['viol'])
@@ -1146,7 +1201,7 @@ def replay_object(R, seed, viol, text, raw, options):
     "the replay file content of one violation"
     return dict(property='C19', verif_seed=seed, run=viol['idx'], engine='intr',
                 case=dict(blt=text, raw_b64=base64.b64encode(raw).decode('ascii'), options=options),
-                console=dict(tty=bool(_core.SINK_TTY),
+                console=dict(tty=bool(_core.SINK_TTY), clock_rate=_core.CLOCK_RATE,
                              closed_during_count=bool(viol.get('count_stdout_closed')) and viol['driver'] == 'main'),
                 fault=dict(mechanism=viol['mech'], event=viol['event'], k=viol['k'],
                            site="%s:%s:%d" % tuple(viol['site']) if viol.get('site') else None),
@@ -1164,11 +1219,12 @@ def run_replay(R, obj, tier='quick'):
     o = obj['case']['options']
     f = obj['fault']
     event = f['event']
-    ref = run_reference(R, text, o, event, REF_BUDGET['thorough'] * (8 if event == 'opcode' else 3 if event == 'xline' else 1))
+    _core.SINK_TTY = bool((obj.get('console') or {}).get('tty'))
+    _core.CLOCK_RATE = (obj.get('console') or {}).get('clock_rate')
+    ref = run_reference(R, text, o, event, 4_000_000 * (8 if event == 'opcode' else 3 if event == 'xline' else 1))
     if not ref['ok']:
         return None, 'reference: ' + ref['why']
     flags = set(obj['flags']) if obj.get('flags') else None
-    _core.SINK_TTY = bool((obj.get('console') or {}).get('tty'))
     res = run_faulted(R, text, o, event, f['k'], f['mechanism'], tuple(obj['renderers']), obj['driver'], flags, raw,
                       closed_count=(obj['driver'] == 'api' and count_stdout_closed_at(f['k'], ref)) or
                       bool((obj.get('console') or {}).get('closed_during_count')))
@@ -1183,7 +1239,7 @@ def run_replay(R, obj, tier='quick'):
 
 def _find(R, text, raw, o, target, event, order, driver, flags, mech, ks, force_closed=False):
     "first k of ks at which the target violation class shows; (k, viol) or None"
-    ref = run_reference(R, text, o, event, REF_BUDGET['quick'] * (8 if event == 'opcode' else 3 if event == 'xline' else 1))
+    ref = run_reference(R, text, o, event, 4_000_000 * (8 if event == 'opcode' else 3 if event == 'xline' else 1))
     if not ref['ok']:
         return None
     for k in ks:
@@ -1211,6 +1267,7 @@ def confirm_pristine(R, seed, viol, tier):
     idx = viol['idx']
     _, o, text, raw, _ = make_case(seed, idx, tier)
     _core.SINK_TTY = case_tty(idx)
+    _core.CLOCK_RATE = case_clock(idx)
     flags = set(viol['flags']) if viol.get('flags') else None
     force_closed = bool(viol.get('count_stdout_closed')) and viol['driver'] == 'main'
     got = _find(R, text, raw, o, vclass(viol), viol['event'], tuple(viol['order']), viol['driver'], flags,
@@ -1240,6 +1297,7 @@ def minimise(R, seed, viol, tier, budget_tests=60):
 
     force_closed = bool(viol.get('count_stdout_closed')) and driver == 'main'
     _core.SINK_TTY = case_tty(idx)
+    _core.CLOCK_RATE = case_clock(idx)
     got = _find(R, text, raw, o, target, event, order, driver, flags, mech, ks_upto(viol['k']), force_closed)
     if got:
         best = dict(got[1], idx=idx)
